@@ -370,6 +370,8 @@ def parse_type(s, aliases=None):
             return TDict(args[0], args[1])
         if nm == "Map":
             return TMap(args[0], args[1])
+        if nm == "Set":
+            return TMap(args[0], TBool())
         raise ValueError("unknown type %r in %r" % (nm, s))
 
     return p()
